@@ -56,6 +56,8 @@ func (e *CExpr) String() string {
 		return e.Str + "(" + strings.Join(as, ", ") + ")"
 	case "unop":
 		return e.Str + e.X.String()
+	case "deref":
+		return "*" + e.X.String()
 	case "binop":
 		return "(" + e.X.String() + " " + e.Str + " " + e.Y.String() + ")"
 	case "cond":
@@ -264,6 +266,14 @@ func (ps *parser) expr(minPrec int) (*CExpr, error) {
 
 func (ps *parser) unary() (*CExpr, error) {
 	t := ps.peek()
+	if t.kind == "op" && t.text == "*" {
+		ps.next()
+		x, err := ps.unary()
+		if err != nil {
+			return nil, err
+		}
+		return &CExpr{Kind: "deref", X: x, Pos: t.pos}, nil
+	}
 	if t.kind == "op" && (t.text == "!" || t.text == "-") {
 		ps.next()
 		x, err := ps.unary()
